@@ -8,6 +8,8 @@ pub mod c03;
 pub mod c04;
 pub mod c05;
 pub mod c07;
+pub mod c13;
+pub mod c19;
 pub mod c20;
 pub mod common;
 
@@ -24,6 +26,8 @@ pub fn lookup(id: &str) -> Option<PropDef> {
         "C04" => PropDef { run: c04::run, replay: c04::replay },
         "C05" => PropDef { run: c05::run, replay: c05::replay },
         "C07" => PropDef { run: c07::run, replay: c07::replay },
+        "C13" => PropDef { run: c13::run, replay: c13::replay },
+        "C19" => PropDef { run: c19::run, replay: c19::replay },
         "C20" => PropDef { run: c20::run, replay: c20::replay },
         _ => return None,
     })
